@@ -82,19 +82,19 @@ Proof.
   destruct (e_ext e) eqn:Ex; destruct (e_obj e) as [c|c keys|k dec csig ee items|] eqn:Eo; try contradiction.
   - destruct (cert_valid p pkey c && check_crl v c) eqn:Hc; [|contradiction].
     apply filter_In in Hin. destruct Hin as [Hi Hk]. apply andb_true_iff in Hc. destruct Hc as [H1 H2].
-    split; [exact Hk|]. left. exists c, keys. repeat split; try reflexivity; [apply cert_valid_good; assumption | exact Hi].
+    split; [exact Hk|]. left. exists c, keys. split; [reflexivity|]. split; [reflexivity|]. split; [apply cert_valid_good; assumption | exact Hi].
   - destruct k; try contradiction.
     destruct (dec && csig && cert_valid p pkey ee && check_crl v ee) eqn:Hc; [|contradiction].
     apply filter_In in Hin. destruct Hin as [Hi Hk].
     repeat (apply andb_true_iff in Hc; destruct Hc as [Hc ?]). subst.
     split; [exact Hk|]. right. exists KRoa, ee, items.
-    repeat split; try reflexivity; [left; split; reflexivity | apply cert_valid_good; assumption | exact Hi].
+    split; [left; split; reflexivity|]. split; [reflexivity|]. split; [apply cert_valid_good; assumption | exact Hi].
   - destruct k; try contradiction.
     destruct (dec && csig && cert_valid p pkey ee && check_crl v ee) eqn:Hc; [|contradiction].
     apply filter_In in Hin. destruct Hin as [Hi Hk].
     repeat (apply andb_true_iff in Hc; destruct Hc as [Hc ?]). subst.
     split; [exact Hk|]. right. exists KAspa, ee, items.
-    repeat split; try reflexivity; [right; split; reflexivity | apply cert_valid_good; assumption | exact Hi].
+    split; [right; split; reflexivity|]. split; [reflexivity|]. split; [apply cert_valid_good; assumption | exact Hi].
 Qed.
 
 Lemma entry_children_spec : forall cf p pkey v chain depth e c,
@@ -117,7 +117,7 @@ Lemma child_ok_good : forall cf p pkey v chain depth c,
 Proof.
   intros cf p pkey v chain depth c H. unfold child_ok in H.
   repeat (apply andb_true_iff in H; destruct H as [H ?]).
-  repeat split.
+  split; [|split].
   - apply cert_valid_good; assumption.
   - intro Hin. apply existsb_Neqb_In in Hin. match goal with X : negb _ = true |- _ => apply negb_true_iff in X; congruence end.
   - apply Nat.leb_le. assumption.
